@@ -71,6 +71,9 @@ class Lattice(Part):
             if style > 0.8:
                 q[0] = 0
             cases.append({"kind": "zdt1", "q": q})
+        # vertices and integer points of the box, given as Python ints / numpy integer arrays (hand-written test points, grids)
+        for _ in range(40 if ctx.quick else 400):
+            cases.append({"kind": "zdt1", "q": [4 * rng.randrange(2) for _ in range(30)], "typed": rng.choice(["int", "intarray", "float"])})
         for _ in range(200 if ctx.quick else 2000):
             cases.append({"kind": "biobj", "x1": [rng.randint(1, 8), 8], "x2": [rng.randint(0, 40), 8]})
         return cases
@@ -99,6 +102,8 @@ class Lattice(Part):
                 return [ev]
             kind = case["numpy"]
             vec = [np.float64(v) for v in x] if kind == "scalar" else (np.array(x, dtype=float) if kind == "ndarray" else list(x))
+            if kind == "float" and (len(x) + int(1000 * sum(x))) % 3 == 0:
+                vec = [int(v) if float(v) == int(v) else v for v in x]         # integral coordinates written as Python ints
             ind = Individual(vec)
             st, res = observe(prob.evaluate, ind)
             if st == "exc":
@@ -116,7 +121,12 @@ class Lattice(Part):
         if case["kind"] == "zdt1":
             q = case["q"]
             prob = bp.ZDT1()
-            ind = Individual([v / 4.0 for v in q])
+            coords = [v / 4.0 for v in q]
+            if case.get("typed") == "int":
+                coords = [int(v) for v in coords]
+            elif case.get("typed") == "intarray":
+                coords = np.array([int(v) for v in coords])
+            ind = Individual(coords)
             st, res = observe(prob.evaluate, ind)
             ev = {"ev": "zdt1", "q": q, "f1": [0, 1], "f2": [0, 1], "F1c": 0, "F2c": 0, "Gc": 0, "exc": ""}
             if st == "exc":
